@@ -415,9 +415,9 @@ func vpC31Size(t *rapid.T, label string) int {
 		rapid.IntRange(1<<20+1, 4<<20),
 		rapid.SampledFrom([]int{1, 2, 5, 6, 7, 1199, 1200, 1201, 1<<16 - 1, 1 << 16, 1<<16 + 1, 1<<20 - 1, 1 << 20, 1<<20 + 1, 4<<20 - 1, 4 << 20}),
 	}
-	if kit.Thorough() {
-		gens = append(gens, rapid.IntRange(4<<20+1, TransportMessageMaxSize),
-			rapid.SampledFrom([]int{TransportMessageMaxSize - 1, TransportMessageMaxSize, 16 << 20, 16<<20 + 1}))
+	if kit.Thorough() && rapid.IntRange(0, 7).Draw(t, label+"_huge") == 0 {
+		return rapid.OneOf(rapid.IntRange(4<<20+1, TransportMessageMaxSize),
+			rapid.SampledFrom([]int{TransportMessageMaxSize - 1, TransportMessageMaxSize, 16 << 20, 16<<20 + 1})).Draw(t, label+"_hugesize")
 	}
 	return rapid.OneOf(gens...).Draw(t, label)
 }
@@ -437,24 +437,41 @@ func vpC31SizeClass(n int) string {
 	}
 }
 
-// vpC31Settle decides what a step result means. It returns false when the
-// pair can no longer be used.
-func vpC31Settle(outer *testing.T, rt *rapid.T, troubled *bool, err error) bool {
+// vpC31Run carries the trouble accounting of one test function. Transport
+// trouble (setup failure, I/O error, the code's own 10 s / 20 s stream
+// deadlines under machine load, liveness guard) never counts as a violation:
+// the affected step is abandoned together with its connection and counted; more
+// than vpC31TroubleBudget of them make the run inconclusive.
+type vpC31Run struct {
+	outer    *testing.T
+	c        *kit.Collector
+	troubles int
+	dead     bool
+}
+
+const vpC31TroubleBudget = 3
+
+// settle decides what a step result means. It returns false when the pair can
+// no longer be used.
+func (r *vpC31Run) settle(rt *rapid.T, err error) bool {
 	if err == nil {
 		return true
 	}
 	var tr *vpC31Trouble
 	if errors.As(err, &tr) {
-		if !*troubled {
-			*troubled = true
-			kit.Inconclusive(outer, "loopback QUIC trouble: %s", tr.what)
+		r.troubles++
+		r.c.Class("transport-trouble-abandoned-step")
+		fmt.Printf("vp C31: transport trouble %d: %s\n", r.troubles, tr.what)
+		if r.troubles > vpC31TroubleBudget && !r.dead {
+			r.dead = true
+			kit.Inconclusive(r.outer, "loopback QUIC trouble (%d steps abandoned), last: %s", r.troubles, tr.what)
 		}
 		return false
 	}
 	if rt != nil {
 		rt.Fatalf("%v", err)
 	} else {
-		outer.Fatalf("%v", err)
+		r.outer.Fatalf("%v", err)
 	}
 	return false
 }
@@ -466,16 +483,16 @@ func TestVP_C31_frame_roundtrip(t *testing.T) {
 	if kit.Thorough() {
 		c.Require("size>4MiB")
 	}
-	c.Assume("loopback UDP (127.0.0.1) is available to the test process; transport I/O errors and liveness-guard expiries are reported as inconclusive, not as violations")
-	kit.SetChecks(kit.N(40, 2400))
-	troubled := false
+	c.Assume("loopback UDP (127.0.0.1) is available to the test process; a step that ends in a transport I/O error, one of the code's own stream deadlines or the liveness guard is abandoned and counted (class transport-trouble-abandoned-step); more than 3 of them make the run inconclusive; none is ever reported as a violation")
+	kit.SetChecks(kit.N(40, 1600))
+	run := &vpC31Run{outer: t, c: c}
 	rapid.Check(t, func(rt *rapid.T) {
-		if troubled {
+		if run.dead {
 			return
 		}
 		steps := rapid.IntRange(3, 8).Draw(rt, "steps")
 		pair, err := vpC31NewPair()
-		if !vpC31Settle(t, rt, &troubled, err) {
+		if !run.settle(rt, err) {
 			return
 		}
 		defer pair.close()
@@ -488,7 +505,7 @@ func TestVP_C31_frame_roundtrip(t *testing.T) {
 			switch rapid.SampledFrom([]string{"roundtrip", "roundtrip", "roundtrip", "limit", "limit", "oversize-header", "send-refused", "bad-limit"}).Draw(rt, l+"op") {
 			case "roundtrip":
 				n := vpC31Size(rt, l+"size")
-				if !vpC31Settle(t, rt, &troubled, vpC31Transfer(src, dst, vpC31Fill(seed, n), TransportMessageMaxSize)) {
+				if !run.settle(rt, vpC31Transfer(src, dst, vpC31Fill(seed, n), TransportMessageMaxSize)) {
 					return
 				}
 				c.Case(fmt.Sprintf("rt-%d-%d-%d", dir, n, seed), n >= 64<<10, "roundtrip", vpC31SizeClass(n), dirClass)
@@ -499,7 +516,7 @@ func TestVP_C31_frame_roundtrip(t *testing.T) {
 				if n < 1 {
 					n = 1
 				}
-				if !vpC31Settle(t, rt, &troubled, vpC31Transfer(src, dst, vpC31Fill(seed, n), uint32(limit))) {
+				if !run.settle(rt, vpC31Transfer(src, dst, vpC31Fill(seed, n), uint32(limit))) {
 					return
 				}
 				cls := "limit-accept"
@@ -519,7 +536,7 @@ func TestVP_C31_frame_roundtrip(t *testing.T) {
 					limit = uint32(rapid.IntRange(1, 1<<20).Draw(rt, l+"limit"))
 				}
 				follow := vpC31Fill(seed, rapid.IntRange(1, 4096).Draw(rt, l+"follow"))
-				if !vpC31Settle(t, rt, &troubled, vpC31OversizeHeader(src, dst, announced, limit, follow)) {
+				if !run.settle(rt, vpC31OversizeHeader(src, dst, announced, limit, follow)) {
 					return
 				}
 				c.Case(fmt.Sprintf("hdr-%d-%d-%d", dir, announced, limit), true, "oversize-header", dirClass)
@@ -527,18 +544,18 @@ func TestVP_C31_frame_roundtrip(t *testing.T) {
 			case "send-refused":
 				n := TransportMessageMaxSize + rapid.IntRange(1, 64).Draw(rt, l+"over")
 				follow := vpC31Fill(seed, rapid.IntRange(1, 4096).Draw(rt, l+"follow"))
-				if !vpC31Settle(t, rt, &troubled, vpC31SendRefused(src, dst, n, follow)) {
+				if !run.settle(rt, vpC31SendRefused(src, dst, n, follow)) {
 					return
 				}
 				c.Case(fmt.Sprintf("big-%d-%d", dir, n), true, "send-refused", dirClass)
 			case "bad-limit":
 				// limits outside 1..max are refused without touching the stream
 				bad := rapid.SampledFrom([]uint32{0, TransportMessageMaxSize + 1, 0xffffffff}).Draw(rt, l+"bad")
-				if !vpC31Settle(t, rt, &troubled, vpC31BadLimit(dst, bad)) {
+				if !run.settle(rt, vpC31BadLimit(dst, bad)) {
 					return
 				}
 				follow := vpC31Fill(seed, rapid.IntRange(1, 4096).Draw(rt, l+"follow"))
-				if !vpC31Settle(t, rt, &troubled, vpC31Transfer(src, dst, follow, TransportMessageMaxSize)) {
+				if !run.settle(rt, vpC31Transfer(src, dst, follow, TransportMessageMaxSize)) {
 					return
 				}
 				c.Case(fmt.Sprintf("badlim-%d-%d-%d", dir, bad, seed), true, "bad-limit", dirClass)
@@ -554,9 +571,9 @@ func TestVP_C31_frame_limits(t *testing.T) {
 	}
 	c := kit.New(t, "C31", "deterministic boundary walk on one loopback QUIC pair: frames of 1, 2, 5, 6, 7, 1199..1201, 2^16-1..2^16+1, 2^20-1..2^20+1, 4 MiB and exactly TransportMessageMaxSize-1 / TransportMessageMaxSize bytes in both directions; Send of max+1 and max+64 bytes; headers announcing max+1, max+2, 2*max, 2^31-1, 2^31, 2^32-1; non-trivial = frame >= 64 KiB or a refusal; distinct by (kind, size, direction)")
 	c.Require("roundtrip", "frame=max", "frame=max-1", "send-refused", "oversize-header")
+	run := &vpC31Run{outer: t, c: c}
 	pair, err := vpC31NewPair()
-	troubled := false
-	if !vpC31Settle(t, nil, &troubled, err) {
+	if !run.settle(nil, err) {
 		return
 	}
 	defer pair.close()
@@ -568,7 +585,7 @@ func TestVP_C31_frame_limits(t *testing.T) {
 				continue // the two largest frames travel once each, in opposite directions
 			}
 			src, dst := pair.ends(dir)
-			if !vpC31Settle(t, nil, &troubled, vpC31Transfer(src, dst, vpC31Fill(uint64(1000+i), n), TransportMessageMaxSize)) {
+			if !run.settle(nil, vpC31Transfer(src, dst, vpC31Fill(uint64(1000+i), n), TransportMessageMaxSize)) {
 				return
 			}
 			classes := []string{"roundtrip", vpC31SizeClass(n)}
@@ -584,13 +601,13 @@ func TestVP_C31_frame_limits(t *testing.T) {
 	for dir := 0; dir < 2; dir++ {
 		src, dst := pair.ends(dir)
 		for _, over := range []int{1, 64} {
-			if !vpC31Settle(t, nil, &troubled, vpC31SendRefused(src, dst, TransportMessageMaxSize+over, []byte("after refused send"))) {
+			if !run.settle(nil, vpC31SendRefused(src, dst, TransportMessageMaxSize+over, []byte("after refused send"))) {
 				return
 			}
 			c.Case(fmt.Sprintf("walk-big-%d-%d", dir, over), true, "send-refused")
 		}
 		for _, announced := range []uint32{TransportMessageMaxSize + 1, TransportMessageMaxSize + 2, 2 * TransportMessageMaxSize, 0x7fffffff, 0x80000000, 0xffffffff} {
-			if !vpC31Settle(t, nil, &troubled, vpC31OversizeHeader(src, dst, announced, TransportMessageMaxSize, []byte("after refused header"))) {
+			if !run.settle(nil, vpC31OversizeHeader(src, dst, announced, TransportMessageMaxSize, []byte("after refused header"))) {
 				return
 			}
 			c.Case(fmt.Sprintf("walk-hdr-%d-%d", dir, announced), true, "oversize-header")
